@@ -169,8 +169,9 @@ zix_btree_iter_next(ZixBTreeIter iter);
 /**
    Insert the element `e` into `t`.
 
-   @return #ZIX_STATUS_SUCCESS on success, #ZIX_STATUS_EXISTS, or
-   #ZIX_STATUS_NO_MEM.
+   @return #ZIX_STATUS_SUCCESS on success, #ZIX_STATUS_EXISTS,
+   #ZIX_STATUS_NO_MEM, or #ZIX_STATUS_OVERFLOW if the tree would have to grow
+   beyond #ZIX_BTREE_MAX_HEIGHT levels.
 */
 ZIX_API ZixStatus
 zix_btree_insert(ZixBTree* ZIX_NONNULL t, void* ZIX_UNSPECIFIED e);
